@@ -255,7 +255,7 @@ class Purity:
 
     def attrs_written(self, name):
         """first-level attributes of the receiver that a call of `name` may store, or None when that is not known"""
-        if ':' in name:                 # 'rel:Cls.method' - resolved in a known class
+        if ':' in name and '.' in name.split(':', 1)[1] and name.split(':', 1)[0].endswith('.py'):   # 'rel:Cls.method' - resolved in a known class
             rel, q = name.split(':', 1)
             cls, m = q.split('.', 1)
             a = self.class_writes(rel, cls, m)
